@@ -545,6 +545,15 @@ pub fn valid_model(w: &MWorkflow, all_models: &[String]) -> bool {
             if !step_ids.contains(n) {
                 ok = false;
             }
+            // a backward jump must stay a terminating loop: the counting act of the target step and the guard of
+            // the jump (a branch `c < K`) are kept by the shrinker
+            if n == "linc" {
+                let counts = w.steps.iter().any(|x| x.id == "linc" && x.acts.iter().any(|a| matches!(&a.kind, ActKind::Code(c) if c.contains("c + 1"))));
+                let guarded = w.steps.iter().any(|x| x.id == "ljmp" && x.branches.iter().any(|b| b.id == "lb" && matches!(&b.kind, BranchKind::If(Cond::Cmp(Expr::Var(v), op, Expr::Const(_))) if v == "c" && op == "<")));
+                if !counts || !guarded {
+                    ok = false;
+                }
+            }
         }
         // catches / timeout rules of one task have distinct keys
         let mut on: Vec<&Option<String>> = s.catches.iter().map(|c| &c.on).collect();
